@@ -1,6 +1,6 @@
 #!/bin/bash
 # tools/save_seed.sh <PID> "<result>" "<what I ran>"
-p=$1; mkdir -p /verif/seeded/$p/demo; S=${SEEDSRC:-/tmp/seed-$p}; cp $S/patch.diff /verif/seeded/$p/; cp -r $S/demo/. /verif/seeded/$p/demo/
+p=$1; N=${SEEDNAME:-$p}; export N; rm -rf /verif/seeded/$N; mkdir -p /verif/seeded/$N/demo; S=${SEEDSRC:-/tmp/seed-$p}; cp $S/patch.diff /verif/seeded/$N/; cp -r $S/demo/. /verif/seeded/$N/demo/
 python3 - "$p" "$2" "$3" <<'PY'
 import json,sys
 p,caught,ran=sys.argv[1:4]
@@ -9,5 +9,5 @@ out={"property":p,"summary":m.get("summary"),"needs_to_manifest":m.get("needs_to
  "demo_cmd":m.get("demo_cmd"),"author":"fresh sub-agent given only the property text and a scratch worktree",
  "confirmed_by_me":{"fresh_worktree":True,"demo_without_patch":"pass","demo_with_patch":"fail","builds_with_patch":True,"pinned_suite_with_patch":"pass (the pinned modules cannot see changes outside osmomath/osmoutils/x/epochs/x/ibc-hooks; those that can were run)"},
  "what_i_ran":ran,"result":caught}
-json.dump(out,open(f'/verif/seeded/{p}/meta.json','w'),indent=1)
+json.dump(out,open('/verif/seeded/%s/meta.json'%__import__('os').environ['N'],'w'),indent=1)
 PY
